@@ -238,6 +238,14 @@ func (p *Program) addStore(ms *ModSet, addr ssa.Value, t types.Type) {
 	if localRoot(addr) != nil {
 		return // memory of this function's own local / fresh object
 	}
+	if fv := freeVarRoot(addr); fv != nil {
+		// a write into (a field/element of) a captured variable of the enclosing function
+		for i, q := range fv.Parent().FreeVars {
+			if q == fv {
+				ms.freeVars[i] = true
+			}
+		}
+	}
 	fields, elems := map[int]bool{}, map[string]bool{}
 	scalar := typeLeaves(t, fields, elems)
 	for k := range fields {
@@ -513,6 +521,45 @@ func (p *Program) mergeCallee(ms *ModSet, fn *ssa.Function, mc *ssa.MakeClosure,
 }
 
 func (p *Program) callMods(ms *ModSet, c *ssa.CallCommon) {
+	// handing the address of a captured variable to any callee counts as writing it
+	for _, a := range c.Args {
+		if fv := freeVarRoot(a); fv != nil {
+			for i, q := range fv.Parent().FreeVars {
+				if q == fv {
+					ms.freeVars[i] = true
+				}
+			}
+		}
+	}
+	p.callMods1(ms, c)
+}
+
+// freeVarRoot follows address computations back to a captured variable, if any.
+func freeVarRoot(v ssa.Value) *ssa.FreeVar {
+	for i := 0; i < 16; i++ {
+		switch x := stripVal(v).(type) {
+		case *ssa.FreeVar:
+			return x
+		case *ssa.FieldAddr:
+			v = x.X
+		case *ssa.IndexAddr:
+			if _, isPtr := x.X.Type().Underlying().(*types.Pointer); !isPtr {
+				return nil
+			}
+			v = x.X
+		case *ssa.Slice:
+			if _, isPtr := x.X.Type().Underlying().(*types.Pointer); !isPtr {
+				return nil
+			}
+			v = x.X
+		default:
+			return nil
+		}
+	}
+	return nil
+}
+
+func (p *Program) callMods1(ms *ModSet, c *ssa.CallCommon) {
 	if c.IsInvoke() {
 		it, _ := c.Value.Type().Underlying().(*types.Interface)
 		if it == nil {
